@@ -25,10 +25,13 @@ def run_many(binp, stamp, arglist, timeout=120, jobs=None, tag='s', use_cache=Tr
         if use_cache and os.path.exists(cf):
             try:
                 r = json.load(open(cf)); r['cached'] = True
-                return r
+                # only verdicts whose output files were written by this very build of the driver are reused
+                if r.get('bin_stamp') == scn._bin_stamp(binp) and (r['outcome'] != 'ok' or os.path.exists(r['prefix'] + '.hist')):
+                    return r
             except Exception:
                 pass
         r = scn.run(binp, a, timeout=timeout, tag=tag)
+        r['bin_stamp'] = scn._bin_stamp(binp)
         r.pop('stderr', None) if r['outcome'] == 'ok' else None
         if r['outcome'] != 'timeout':          # a watchdog expiry may be the machine, not the code: never remembered, and confirmed below
             try:
